@@ -50,6 +50,9 @@ termination_by s => s.length
 decreasing_by all_goals simp_wf <;> omega
 
 
+/-- text content is escaped either with `escape` or with the quote-aware variant (both decode to the text) -/
+def escOf (qesc : Bool) (s : Str) : Str := if qesc then escAttr s else escText s
+
 def isNameChar (c : Char) : Bool :=
   c.isAlphanum || c == ':' || c == '_' || c == '-' || c == '.'
 
@@ -176,7 +179,7 @@ def OpenOK (tag : Str) (ps : List PAttr) (trail : Str) : Prop :=
 
 mutual
 inductive X
-  | node (tag : Str) (attrs : List PAttr) (trail : Str) (text : Str) (kids : XS)
+  | node (tag : Str) (attrs : List PAttr) (trail : Str) (qesc : Bool) (text : Str) (kids : XS)
 inductive XS
   | nil
   | cons (x : X) (xs : XS)
@@ -194,8 +197,8 @@ end
 
 mutual
 def render : X → Str
-  | .node tag attrs trail text kids =>
-    printOpen tag attrs trail ++ (escText text ++ (renderS kids ++ printClose tag))
+  | .node tag attrs trail qesc text kids =>
+    printOpen tag attrs trail ++ (escOf qesc text ++ (renderS kids ++ printClose tag))
 def renderS : XS → Str
   | .nil => []
   | .cons x xs => render x ++ renderS xs
@@ -204,7 +207,7 @@ end
 
 mutual
 def strip : X → T
-  | .node tag attrs _ text kids => .node tag (attrs.map fun a => (a.k, a.v)) text (stripS kids)
+  | .node tag attrs _ _ text kids => .node tag (attrs.map fun a => (a.k, a.v)) text (stripS kids)
 def stripS : XS → TS
   | .nil => .nil
   | .cons x xs => .cons (strip x) (stripS xs)
@@ -226,7 +229,7 @@ end
 
 mutual
 def WF : X → Prop
-  | .node tag attrs trail _ kids => OpenOK tag attrs trail ∧ WFS kids
+  | .node tag attrs trail _ _ kids => OpenOK tag attrs trail ∧ WFS kids
 def WFS : XS → Prop
   | .nil => True
   | .cons x xs => WF x ∧ WFS xs
